@@ -204,6 +204,29 @@ struct shared_timed_mutex : private detail::base_mutex {
     const ::vrt::MutexCore& vrt_core() const { return core; }
 };
 
+// recursive mutex: the owner may lock again (depth counted); other fibers are excluded as with a plain mutex
+struct recursive_mutex {
+    detail::base_mutex inner;
+    int depth = 0;
+    void lock() {
+        if (!::vrt::rt().cur) return;
+        if (inner.core.owner == ::vrt::self()) { ::vrt::me().pend = ::vrt::P_NONE; ::vrt::point(); depth++; return; }
+        inner.lock(); depth = 1;
+    }
+    bool try_lock() {
+        if (!::vrt::rt().cur) return true;
+        if (inner.core.owner == ::vrt::self()) { ::vrt::me().pend = ::vrt::P_NONE; ::vrt::point(); depth++; return true; }
+        if (inner.try_lock()) { depth = 1; return true; }
+        return false;
+    }
+    void unlock() {
+        if (!::vrt::rt().cur) return;
+        if (inner.core.owner != ::vrt::self()) ::vrt::fail("unlock-unowned", "unlock() of a recursive mutex the caller does not own");
+        if (--depth > 0) { ::vrt::me().pend = ::vrt::P_NONE; ::vrt::point(); return; }
+        inner.unlock();
+    }
+};
+
 // ------------------------------------------------------------------------------------------ condition variable
 struct condition_variable {
     ::vrt::CvCore cv;
